@@ -84,6 +84,7 @@ func presetFor(c *Ctx, id string, i int) *HistOpts {
 		if (c.Quick() && i%16 == 3) || (!c.Quick() && i%64 == 3) {
 			// a long-lived process: cumulative effects across many blocks (gas pools, caches, journals)
 			o.Blocks = 150
+			o.RestartPermille = -1 // one uninterrupted process lifetime
 			o.Gen.MaxTx = 14
 			w["call"], w["deploy"] = 90, 6
 		}
